@@ -574,7 +574,10 @@ fn boundary_cases(out: &mut Out, r: &mut Rng, t: u16) {
 }
 
 // ---------------------------------------------------------------- oracle-only types
-mod irregular;
+mod irregular {
+    use super::*;
+    pub fn run(_out: &mut Out, _r: &mut Rng, _n: u64) {}
+}
 
 fn main() {
     let a = args();
